@@ -281,7 +281,7 @@ def run_check(prop, tier, only=None, keep=False, extra=None):
     harnesses = gen.harnesses(tier)
     if only:
         harnesses = [h for h in harnesses if only in h.hid]
-    costs = load_costs()
+    costs = {} if os.environ.get("VERIF_IGNORE_COSTS") == "1" else load_costs()
     deferred = []
     if tier == "quick" and not only:
         kept = []
@@ -318,10 +318,32 @@ def run_check(prop, tier, only=None, keep=False, extra=None):
     try:
         if hasattr(gen, "pre_checks"):
             pre = gen.pre_checks(tier, workdir)  # e.g. translator validation, kernel SMT queries
-        # long budgets first -> better packing
-        order = sorted(harnesses, key=lambda h: -h.timeout)
+        skipped_gap = []
+        if pre.get("undecidable_trees"):
+            gap = set(pre.pop("undecidable_trees"))
+            import catalogue as _cat
+            gap_exprs = {t.expr for t in _cat.unit() + _cat.deep() + _cat.slot() if t.name in gap}
+            keep_h = []
+            for h in harnesses:
+                if "/buffers/" not in h.hid and (h.tree in gap_exprs or any(("/%s/" % g) in h.hid for g in gap)):
+                    skipped_gap.append(h.hid)
+                else:
+                    keep_h.append(h)
+            harnesses = keep_h
+            ids = [h.hid for h in harnesses]
+            pre.setdefault("samples", []).append({"undecided_because_numpy_model_incomplete": skipped_gap})
+        # long budgets first -> better packing; under a wall cap (thorough tier) cheap ones first, so that the cap cuts the
+        # expensive tail and what was not started is reported as NOTRUN (never as held)
+        cap = float(os.environ.get("VERIF_WALL_CAP", "7200" if tier == "thorough" else "0") or 0)
+        order = sorted(harnesses, key=(lambda h: h.timeout) if cap else (lambda h: -h.timeout))
+
+        def guarded(h):
+            if cap and time.time() - t0 > cap:
+                return {"id": h.hid, "status": "NOTRUN", "detail": "the wall cap of this tier (%d s) was reached before this harness started" % cap}
+            return decide(h, workdir, prop)
+
         with cf.ThreadPoolExecutor(NCPU) as ex:
-            futs = {ex.submit(decide, h, workdir, prop): h for h in order}
+            futs = {ex.submit(guarded, h): h for h in order}
             for f in cf.as_completed(futs):
                 try:
                     r = f.result()
@@ -420,6 +442,7 @@ def run_check(prop, tier, only=None, keep=False, extra=None):
             "engine_cpu_s": round(sum(r.get("cpu_s", 0) or 0 for r in results), 1),
             "repo_functions_encoded": funcs,
             "inconclusive": [r["id"] for r in results if r["status"] not in ("CONFIRMED", "REFUTED")],
+            "not_run_wall_cap": [r["id"] for r in results if r["status"] == "NOTRUN"],
             "deferred_to_thorough": deferred,
             "out_of_reach_at_thorough_budget": out_of_reach,
             "kernel_queries": pre.get("samples", []),
